@@ -305,7 +305,15 @@ func permResolveStat(path string) *[3]int {
 	return nil
 }
 
-func permCallApi(api int, path string) error {
+// permWrappers: the wrapper objects of one case. A CmdSensor / CmdFan lives as long as the daemon and is asked again
+// and again; the calls of one case on one name therefore go through ONE object (whatever it remembers between calls
+// must not replace the check or the error).
+type permWrappers struct {
+	sensors map[string]*sensors.CmdSensor
+	fans    map[string]*fans.CmdFan
+}
+
+func permCallApi(w *permWrappers, api int, path string) error {
 	timeout := 2 * time.Second
 	switch api {
 	case 5:
@@ -326,15 +334,23 @@ func permCallApi(api int, path string) error {
 		_, err := util.SafeCmdExecution(path, []string{}, timeout)
 		return err
 	case 1:
-		s := &sensors.CmdSensor{Config: configuration.SensorConfig{ID: "s", Cmd: &configuration.CmdSensorConfig{Exec: path}}}
+		s, ok := w.sensors[path]
+		if !ok {
+			s = &sensors.CmdSensor{Config: configuration.SensorConfig{ID: "s", Cmd: &configuration.CmdSensorConfig{Exec: path}}}
+			w.sensors[path] = s
+		}
 		_, err := s.GetValue()
 		return err
 	default:
-		f := &fans.CmdFan{Config: configuration.FanConfig{ID: "f", Cmd: &configuration.CmdFanConfig{
-			SetPwm: &configuration.ExecConfig{Exec: path, Args: []string{"%pwm%"}},
-			GetPwm: &configuration.ExecConfig{Exec: path},
-			GetRpm: &configuration.ExecConfig{Exec: path},
-		}}}
+		f, ok := w.fans[path]
+		if !ok {
+			f = &fans.CmdFan{Config: configuration.FanConfig{ID: "f", Cmd: &configuration.CmdFanConfig{
+				SetPwm: &configuration.ExecConfig{Exec: path, Args: []string{"%pwm%"}},
+				GetPwm: &configuration.ExecConfig{Exec: path},
+				GetRpm: &configuration.ExecConfig{Exec: path},
+			}}}
+			w.fans[path] = f
+		}
 		switch api {
 		case 2:
 			_, err := f.GetPwm()
@@ -527,6 +543,7 @@ func runPerm(workDir string, n int, in permIn) ([]permObs, string) {
 			must(syscall.Chmod(dp, 0o777))
 		}
 	}
+	wrappers := &permWrappers{sensors: map[string]*sensors.CmdSensor{}, fans: map[string]*fans.CmdFan{}}
 	var obs []permObs
 	var coqOps []string
 	for _, op := range in.Ops {
@@ -572,7 +589,7 @@ func runPerm(workDir string, n int, in permIn) ([]permObs, string) {
 			}
 			var err error
 			permFsMu.RLock()
-			pn := catch(func() { err = permCallApi(op.Api, p) })
+			pn := catch(func() { err = permCallApi(wrappers, op.Api, p) })
 			permFsMu.RUnlock()
 			close(stop)
 			<-helperDone
@@ -889,6 +906,39 @@ func init() {
 					}
 				}
 			}
+			// (d5) a history on ONE wrapper object: read ok, the executable stops being root-controlled, three more reads
+			// (each must be refused with an error and start nothing), it is repaired, one more read
+			for api := 0; api <= 5; api++ {
+				for _, via := range []bool{false, true} {
+					target := 1
+					pre := []permOp{}
+					if via {
+						target = 3
+						pre = []permOp{link(3, 1)}
+					}
+					type hc struct {
+						g0     int
+						change permOp
+						repair permOp
+						tag    string
+					}
+					hcs := []hc{
+						{0, permOp{K: "chown", P: target, U: 4242, G: 0}, permOp{K: "chown", P: target, U: 0, G: 0}, "chown-user"},
+						{0, permOp{K: "chmod", P: target, M: 0o757}, permOp{K: "chmod", P: target, M: 0o755}, "chmod-o+w"},
+						{4242, permOp{K: "chmod", P: target, M: 0o775}, permOp{K: "chmod", P: target, M: 0o755}, "chmod-g+w"},
+						{0, permOp{K: "remove", P: 1}, create(1, 0, 0, 0o755), "removed"},
+					}
+					if via {
+						hcs = append(hcs, hc{0, link(3, 2), link(3, 1), "retarget"})
+					}
+					for _, h := range hcs {
+						ops := append([]permOp{create(1, 0, h.g0, 0o755), create(2, 4242, 4242, 0o755)}, pre...)
+						ops = append(ops, exec(api, target), exec(api, target), h.change, exec(api, target), exec(api, target), exec(api, target), exec(api, target),
+							h.repair, exec(api, target), h.change, exec(api, target))
+						add([]string{"one-object", "change=" + h.tag, "api=" + itoa(api)}, ops...)
+					}
+				}
+			}
 			// (e) ownership / mode / link target changed between consecutive calls
 			nFlip := ctx.Param("flips", 400)
 			if !ctx.Quick() {
@@ -917,6 +967,16 @@ func init() {
 						}
 					}
 				}
+				fixedApi := -1
+				if rng.Bool() {
+					fixedApi = rng.Intn(6) // the whole sequence through one wrapper object
+				}
+				pickApi := func() int {
+					if fixedApi >= 0 {
+						return fixedApi
+					}
+					return rng.Intn(6)
+				}
 				call := func(p int) permOp {
 					if isCfg {
 						return validate(variant, p)
@@ -931,9 +991,9 @@ func init() {
 						default:
 							d = link(3, 1+rng.Intn(2))
 						}
-						return during(rng.Intn(6), p, d)
+						return during(pickApi(), p, d)
 					}
-					return exec(rng.Intn(6), p)
+					return exec(pickApi(), p)
 				}
 				// two files (often one good, one bad) and a link that may be retargeted
 				ops := []permOp{mk(1, rng.Pick(ids), rng.Pick(ids), pickMode()), mk(2, rng.Pick(ids), rng.Pick(ids), pickMode()), link(3, 1+rng.Intn(2))}
